@@ -146,7 +146,7 @@ fn render(a: &Act) -> String {
 
 pub fn run(ctx: &mut Ctx) {
     let mut real = Real::new();
-    let d = if ctx.tier_thorough { 11 } else { 8 };
+    let d = if ctx.tier_thorough { 13 } else { 8 };
     let types = [("BOOLEAN", Comp::B), ("INTEGER", Comp::I), ("FLOAT", Comp::F), ("CODE", Comp::C), ("EXEC", Comp::E), ("BOOLVECTOR", Comp::BV), ("INTVECTOR", Comp::IV), ("FLOATVECTOR", Comp::FV)];
     match ctx.family.as_str() {
         "cross" => {
@@ -156,7 +156,7 @@ pub fn run(ctx: &mut Ctx) {
             acts.push(Act::Tok(Tree::F(2.5)));
             acts.push(Act::Tok(Tree::ins("CODE.DEFINE")));
             acts.push(Act::Tok(Tree::L(vec![Tree::ins("CODE.QUOTE"), Tree::L(vec![Tree::name("X")])])));
-            bfs(ctx, &mut real, "cross", &acts, if ctx.tier_thorough { 8 } else { 6 });
+            bfs(ctx, &mut real, "cross", &acts, if ctx.tier_thorough { 9 } else { 6 });
         }
         fam => {
             let (prefix, t) = types.iter().find(|(p, _)| *p == fam).copied().unwrap_or_else(|| panic!("unknown family {}", fam));
